@@ -70,6 +70,11 @@ Example unguarded_combinator_glues :       (* '+' takes selectorCombinatorSpacer
   /\ leaves_sep prefs_minified (plain (s "+")) (s "+") = false /\ Glue (s "+") (s "2") = true.
 Proof. vm_compute. repeat split; reflexivity. Qed.
 
+Example char_combinator_not_glued :         (* after fix 4b7d642 a '+' of type CHAR keeps a blank on both sides *)
+  out_text prefs_minified 0 [typed (s "1") (s "NUMBER"); typed (s "+") (s "CHAR"); typed (s "2") (s "NUMBER")]
+  = Some (s "1 + 2").
+Proof. vm_compute. reflexivity. Qed.
+
 Example unguarded_space_false_glues :      (* space=False: the caller opts out (selectors) *)
   out_text prefs_default 0 [mkItem (VStr (s "a")) None false false false false []; plain (s "b")] = Some (s "ab").
 Proof. vm_compute. reflexivity. Qed.
@@ -108,6 +113,24 @@ Theorem omissions_exact :
 Proof. exact omissions_exact_lemma. Qed.
 Print Assumptions omissions_exact.
 
+(* a style rule is written iff it has selector text, is well-formed and has declaration text or keepEmptyRules is
+   set -- for every preference record whose line separator does not contain '}' (all ws_prefs records); the proof
+   goes through _indentblock: splitting on the separator never loses a character that is not part of it *)
+Theorem stylerule_printed_iff :
+  forall p lvl sel wf ds, ws_prefs p = true ->
+    (do_stylerule p lvl sel wf ds <> [] <->
+     sel <> [] /\ wf = true /\ (do_styledecl p true ds <> [] \/ p.(keepEmptyRules) = true)).
+Proof.
+  intros p lvl sel wf ds Hw. apply OutFacts.stylerule_printed_iff. apply ws_only_no_brace.
+  destruct (ws_prefs_fields p Hw) as (_ & _ & _ & _ & _ & H). exact H.
+Qed.
+Print Assumptions stylerule_printed_iff.
+
+Example stylerule_printed_example :
+  do_stylerule prefs_minified 0 (s "a") true [DComment (s "/*c*/")] = [] /\
+  do_stylerule prefs_default 0 (s "a") true [DComment (s "/*c*/")] <> [].
+Proof. vm_compute. split; [reflexivity|discriminate]. Qed.
+
 Theorem omitted_comment : forall p t, rule_text p (RComment t) = [] <-> (p.(keepComments) = false \/ t = []).
 Proof. exact comment_omitted. Qed.
 Theorem omitted_unknown : forall p kw wf f raw,
@@ -135,6 +158,29 @@ Example omissions_example :
       RStyle (s "a") true []; RUnknown (s "@x") true (s "@x y;") (s " y;"); ROther (s "@import""x"";")])
   = Some [s "@import""x"";"].
 Proof. vm_compute. reflexivity. Qed.
+
+(* frame: Out.append and the sheet skeleton depend only on the preferences the SOURCE functions read.  agree_out and
+   agree_sheet are regenerated by translate/prefs.py from the `<x>.prefs.<name>` reads of the transcribed functions,
+   so a model that consulted a preference the code does not read would break these proofs. *)
+Theorem append_frame :
+  forall p q, agree_out p q -> forall lvl n rout it, append p lvl n rout it = append q lvl n rout it.
+Proof. exact OutFacts.append_frame. Qed.
+Print Assumptions append_frame.
+
+Theorem do_sheet_frame : forall p q, agree_sheet p q -> forall rs, do_sheet p rs = do_sheet q rs.
+Proof. exact do_sheet_frame_lemma. Qed.
+Print Assumptions do_sheet_frame.
+
+Example frame_example :       (* omitLeadingZero, resolveVariables, importHrefFormat, normalizedVarNames are not read *)
+  agree_sheet prefs_minified
+    {| defaultAtKeyword := true; defaultPropertyName := true; defaultPropertyPriority := true;
+       formatUnknownAtRules := true; importHrefFormat := None; indent := []; indentClosingBrace := true;
+       indentSpecificities := false; keepAllProperties := true; keepComments := false; keepEmptyRules := false;
+       keepUnknownAtRules := false; keepUsedNamespaceRulesOnly := true; lineNumbers := false; lineSeparator := [];
+       linesAfterRules := []; listItemSpacer := []; minimizeColorHash := true; normalizedVarNames := false;
+       omitLastSemicolon := true; omitLeadingZero := false; paranthesisSpacer := []; propertyNameSpacer := [];
+       resolveVariables := false; selectorCombinatorSpacer := []; spacer := []; validOnly := false |}.
+Proof. vm_compute. repeat split. Qed.
 
 (* F  prefs_preserve_meaning: the full statement of the property.  It composes prefs_total with the behaviour of
    the parser and of the value / media-query grammars, which are not modelled; that part stays a named hypothesis
